@@ -4,6 +4,7 @@ import (
 	"encoding/json"
 	"fmt"
 	"net/http"
+	"slices"
 	"strconv"
 	"strings"
 
@@ -25,6 +26,10 @@ type c03Case struct {
 	// GET and one actual request per configured origin pattern with a handler that overwrites in place every header
 	// slice it can reach
 	Scribbled bool `json:"after_requests_served_by_a_scribbling_handler,omitempty"`
+	// Mode 1: the handler is wrapped twice by the same middleware (m.Wrap(m.Wrap(h))); Mode 2: the response header
+	// map already carries CORS headers and Vary from an outer layer (c03Outer) when the middleware runs - what the
+	// middleware leaves exactly as the outer layer set it is the outer layer's business, everything else is judged
+	Mode int `json:"mode,omitempty"`
 }
 
 var safelistedResponseHeaders = map[string]bool{"cache-control": true, "content-language": true, "content-length": true, "content-type": true, "expires": true, "last-modified": true, "pragma": true}
@@ -142,6 +147,31 @@ func c03Invariants(l CfgLit, req vlib.Req, h http.Header, status int) *vlib.Fail
 	return nil
 }
 
+var c03Outer = map[string][]string{"Access-Control-Allow-Origin": {"https://outer.example"}, "Access-Control-Allow-Credentials": {"true"}, "Access-Control-Expose-Headers": {"x-outer"},
+	"Access-Control-Allow-Methods": {"OUTER"}, "Vary": {"Origin"}}
+
+// c03Serve serves req in the given mode and returns the headers to be judged and the status.
+func c03Serve(h http.Handler, mode int, req vlib.Req, rec *vlib.Rec) (http.Header, int) {
+	rec.Reset()
+	if mode == 2 {
+		for k, v := range c03Outer {
+			rec.H[k] = append([]string(nil), v...)
+		}
+	}
+	h.ServeHTTP(rec, req.HTTP())
+	if mode != 2 {
+		return rec.H, rec.Status
+	}
+	judged := http.Header{}
+	for k, v := range rec.H {
+		if o, ok := c03Outer[k]; ok && slices.Equal(o, v) {
+			continue // untouched
+		}
+		judged[k] = v
+	}
+	return judged, rec.Status
+}
+
 func c03Judge(k c03Case) *vlib.Failure {
 	first := k.Cfg
 	if k.Prev != nil {
@@ -178,11 +208,15 @@ func c03Judge(k c03Case) *vlib.Failure {
 		}
 	}
 	rec := vlib.NewRec()
-	m.Wrap(http.HandlerFunc(func(http.ResponseWriter, *http.Request) {})).ServeHTTP(rec, k.Req.HTTP())
-	if rec.WroteN > 1 {
+	h := m.Wrap(http.HandlerFunc(func(http.ResponseWriter, *http.Request) {}))
+	if k.Mode == 1 {
+		h = m.Wrap(h)
+	}
+	hdrs, status := c03Serve(h, k.Mode, k.Req, rec)
+	if rec.WroteN > 1 && k.Mode != 1 {
 		return vlib.Failf("the middleware called WriteHeader %d times on one response", rec.WroteN)
 	}
-	return c03Invariants(k.Cfg, k.Req, rec.H, rec.Status)
+	return c03Invariants(k.Cfg, k.Req, hdrs, status)
 }
 
 func c03Test(k c03Case) string {
@@ -239,6 +273,7 @@ func checkC03(c *vlib.Ctx) (string, string) {
 	type builtC03 struct {
 		lit CfgLit
 		h   [2]http.Handler
+		hw  [2]http.Handler // wrapped twice
 	}
 	var bs []builtC03
 	for _, l := range cfgs {
@@ -255,6 +290,7 @@ func checkC03(c *vlib.Ctx) (string, string) {
 			scribbleConfig(m.Config())
 			m.SetDebug(d == 1)
 			b.h[d] = m.Wrap(http.HandlerFunc(func(http.ResponseWriter, *http.Request) {}))
+			b.hw[d] = m.Wrap(b.h[d])
 		}
 		bs = append(bs, b)
 	}
@@ -393,7 +429,30 @@ func checkC03(c *vlib.Ctx) (string, string) {
 			hdr["Access-Control-Request-Private-Network"] = a
 		}
 		rec := vlib.NewRec()
-		try(rec, vlib.Req{Method: methods[ix[2]], Hdr: hdr})
+		req := vlib.Req{Method: methods[ix[2]], Hdr: hdr}
+		try(rec, req)
+		// the same request through a handler wrapped twice, and behind an outer layer that pre-set CORS headers
+		for bi := range bs {
+			for d := 0; d < 2; d++ {
+				for mode := 1; mode <= 2; mode++ {
+					h := bs[bi].h[d]
+					if mode == 1 {
+						h = bs[bi].hw[d]
+					}
+					hdrs, status := c03Serve(h, mode, req, rec)
+					if f := c03Invariants(bs[bi].lit, req, hdrs, status); f != nil {
+						k := c03Case{Cfg: bs[bi].lit, Debug: d == 1, Req: req, Mode: mode}
+						if jf := vlib.Guard(func() *vlib.Failure { return c03Judge(k) }); jf != nil {
+							ck.Report(k, jf)
+						} else {
+							vlib.HarnessError("fast path and judge disagree on %+v: %s", k, f.Detail)
+						}
+					}
+				}
+			}
+		}
+		c.Evaluations.Add(int64(4 * len(bs)))
+		c.Transitions.Add(int64(4 * len(bs)))
 	})
 	c.States.Add(prod.Count())
 	// (C) history: previous configuration (a broad credentialed one, and each configuration of the alphabet),
